@@ -18,6 +18,7 @@ RULE = ('round trips over the shape alphabet x D x P x value kinds {random, inte
 ASSUMPTIONS = ['numpy.block / numpy.triu_indices / own cycle count are the independent models']
 NMAX = {'quick': 6, 'thorough': 9}
 SHAPES = [(), (1,), (3,), (2, 3), (3, 1), (2, 1, 2)]
+RANK4 = [(2, 3, 3, 2), (2, 3, 4, 5), (2, 1, 3, 2, 2)]
 REQUIRED = ['base_and_dirs', 'utpm2dirs', 'symvec_vecsym', 'vecsym_symvec', 'symvec_triangular_storage', 'as_utpm', 'ndarray2utpm', 'shift',
             'combine_blocks', 'coeff_op', 'piv2mat', 'piv2det', 'piv_plu', 'piv_utpm']
 EXHAUSTIVE_NOTE = 'pivot vectors enumerated completely up to Nmax'
@@ -34,6 +35,10 @@ def cases(tier, seed):
                 for shp in SHAPES:
                     out.append({'kind': 'conv', 'seed': case_seed('C17', seed, D, P, kind, shp),
                                 'params': {'D': D, 'P': P, 'vals': kind, 'shape': list(shp)}})
+                if kind in ('random', 'integers'):
+                    for shp in RANK4:                       # coefficient shapes of rank 4 and 5
+                        out.append({'kind': 'conv', 'seed': case_seed('C17', seed, D, P, kind, shp),
+                                    'params': {'D': D, 'P': P, 'vals': kind, 'shape': list(shp)}})
                 for n in ([1, 2, 3, 4] if tier == 'quick' else [1, 2, 3, 4, 5, 7]):
                     for uplo in 'FLU':
                         out.append({'kind': 'sym', 'seed': case_seed('C17', seed, D, P, kind, n, uplo),
@@ -264,17 +269,30 @@ def _conv(ctx, p, rng):
         if not ok:
             ctx.violation('combine_blocks:layout', {'D': D, 'P': P, 'shape': shp}); return
         ctx.ok('combine_blocks', ('cb',) + cls, exact=True)
-    # --- coeff_op
+    # --- coeff_op: the selected coefficients, reshaped like numpy reshapes (row-major), whatever the memory layout of the
+    # stored coefficients and whichever part is selected
     if len(shp) >= 1:
-        u = UTPM(data.copy())
         d0 = int(rng.integers(D))
-        sl = (slice(d0, D), slice(None)) + (slice(0, shp[0]),)
-        sub = data[sl]
-        newshp = (sub.shape[0], P, int(np.prod(sub.shape[2:], dtype=int)))
-        y = u.coeff_op(sl, newshp)
-        if not (_same(y.data, sub.reshape(newshp)) and _same(u.data, data)):
-            ctx.violation('coeff_op:values', {'D': D, 'P': P, 'shape': shp}); return
-        ctx.ok('coeff_op', ('co',) + cls, exact=True)
+        sels = [(slice(d0, D), slice(None)) + (slice(0, shp[0]),), (slice(None),), (Ellipsis,),
+                (Ellipsis, slice(0, max(1, shp[-1] - 1)))]
+        for si, sl in enumerate(sels):
+            for lay in ('C', 'F', 'T', 'reversed'):
+                stored = gen.relayout(data, lay)
+                u = UTPM(stored)
+                sub = np.array(data, order='C')[sl]
+                forms = [(sub.shape[0], sub.shape[1], int(np.prod(sub.shape[2:], dtype=int)))]
+                if sub.ndim >= 4 and sub.shape[3] * sub.shape[2] > 0:
+                    forms.append(sub.shape[:2] + (sub.shape[3] * sub.shape[2],) + sub.shape[4:])
+                    forms.append(sub.shape[:2] + (1,) + sub.shape[2:])
+                for newshp in forms:
+                    for name, call in (('method', lambda: u.coeff_op(sl, newshp)), ('function', lambda: algopy.coeff_op(u, sl, newshp))):
+                        if name == 'function' and (si or lay != 'F'):
+                            continue
+                        y = call()
+                        if not (isinstance(y, UTPM) and _same(y.data, sub.reshape(newshp)) and _same(u.data, data)):
+                            ctx.violation('coeff_op:values', {'D': D, 'P': P, 'shape': shp, 'stored': lay, 'selection': repr(sl),
+                                                              'new_shape': newshp, 'via': name}); return
+                        ctx.ok('coeff_op', ('co', si, lay, name) + cls, exact=True)
 
 
 def _sym(ctx, p, rng):
